@@ -11,8 +11,8 @@
 
     with the polynomial weight [W] below.  From this: [terminates], [no_revisit]; and
     [rule_free] by induction following [step_named]. *)
-From Coq Require Import String.
-From Coq Require Import ZArith List Bool Lia Arith Wf_nat.
+From Coq Require Import String Rdefinitions.
+From Coq Require Import ZArith List Bool Lia Arith Wf_nat Wellfounded.
 From SM Require Import Num Syntax Outcome MathFun Eval Rules Driver RInst Spec.
 Import ListNotations.
 Open Scope list_scope.
@@ -616,4 +616,475 @@ Section Measure.
   Lemma mu_reciprocal_u_to_the_v e e' :
     reduce_reciprocal_u_to_the_v e = Some e' -> lt4 (mu e') (mu e).
   Proof. unfold reduce_reciprocal_u_to_the_v. intros H. simple_rule H. Qed.
+
+  (** ** NthPower *)
+  Lemma mu_nth_power_where_n_is_one e e' :
+    reduce_nth_power_where_n_is_one e = Some e' -> lt4 (mu e') (mu e).
+  Proof. unfold reduce_nth_power_where_n_is_one. intros H. simple_rule H. Qed.
+
+  Lemma div_gcd_lt (m g : positive) :
+    (g | m)%positive -> g <> 1%positive ->
+    Pos.to_nat (Z.to_pos (Zpos m / Zpos g)) < Pos.to_nat m.
+  Proof.
+    intros [k ->] Hg. rewrite Pos2Z.inj_mul, Z.div_mul by discriminate.
+    rewrite Pos2Z.id, Pos2Nat.inj_mul.
+    pose proof (Pos2Nat.is_pos k). assert (2 <= Pos.to_nat g) by lia. nia.
+  Qed.
+
+  Lemma mu_nth_power_of_mth_root e e' :
+    reduce_nth_power_of_mth_root e = Some e' -> lt4 (mu e') (mu e).
+  Proof.
+    unfold reduce_nth_power_of_mth_root. destruct e; try discriminate.
+    destruct e; try discriminate. rename n0 into m.
+    destruct (Pos.eqb m n).
+    - intros H; inv H. crunch. fin.
+    - cbv zeta. destruct (Pos.eqb (Pos.gcd m n) 1) eqn:Eg; [discriminate|].
+      apply Pos.eqb_neq in Eg. intros H; inv H. crunch.
+      pose proof (div_gcd_lt m _ (Pos.gcd_divide_l m n) Eg).
+      pose proof (div_gcd_lt n _ (Pos.gcd_divide_r m n) Eg).
+      apply lt4_3; lia.
+  Qed.
+
+  Lemma mu_nth_power_of_mth_power e e' :
+    reduce_nth_power_of_mth_power e = Some e' -> lt4 (mu e') (mu e).
+  Proof. unfold reduce_nth_power_of_mth_power. intros H. simple_rule H. Qed.
+
+  Lemma mu_nth_power_of_negation e e' :
+    reduce_nth_power_of_negation e = Some e' -> lt4 (mu e') (mu e).
+  Proof. unfold reduce_nth_power_of_negation. intros H. simple_rule H. Qed.
+
+  Lemma mu_nth_power_of_reciprocal e e' :
+    reduce_nth_power_of_reciprocal e = Some e' -> lt4 (mu e') (mu e).
+  Proof. unfold reduce_nth_power_of_reciprocal. intros H. simple_rule H. Qed.
+
+  Lemma mu_nth_power_of_exponential e e' :
+    reduce_nth_power_of_exponential N e = Some e' -> lt4 (mu e') (mu e).
+  Proof. unfold reduce_nth_power_of_exponential. intros H. simple_rule H. Qed.
+
+  (** ** NthRoot *)
+  Lemma mu_nth_root_where_n_is_one e e' :
+    reduce_nth_root_where_n_is_one e = Some e' -> lt4 (mu e') (mu e).
+  Proof. unfold reduce_nth_root_where_n_is_one. intros H. simple_rule H. Qed.
+
+  Lemma mu_nth_root_of_mth_power e e' :
+    reduce_nth_root_of_mth_power e = Some e' -> lt4 (mu e') (mu e).
+  Proof. unfold reduce_nth_root_of_mth_power. intros H. simple_rule H. Qed.
+
+  Lemma mu_nth_root_of_mth_root e e' :
+    reduce_nth_root_of_mth_root e = Some e' -> lt4 (mu e') (mu e).
+  Proof. unfold reduce_nth_root_of_mth_root. intros H. simple_rule H. Qed.
+
+  Lemma mu_odd_nth_root_of_negation e e' :
+    reduce_odd_nth_root_of_negation e = Some e' -> lt4 (mu e') (mu e).
+  Proof. unfold reduce_odd_nth_root_of_negation. intros H. simple_rule H. Qed.
+
+  Lemma mu_nth_root_of_reciprocal e e' :
+    reduce_nth_root_of_reciprocal e = Some e' -> lt4 (mu e') (mu e).
+  Proof. unfold reduce_nth_root_of_reciprocal. intros H. simple_rule H. Qed.
+
+  (** ** Exponential, Logarithm, Cosine, Sine *)
+  Lemma mu_exponential_of_logarithm e e' :
+    reduce_exponential_of_logarithm N e = Some e' -> lt4 (mu e') (mu e).
+  Proof. unfold reduce_exponential_of_logarithm. intros H. simple_rule H. Qed.
+
+  Lemma mu_exponential_of_negation e e' :
+    reduce_exponential_of_negation e = Some e' -> lt4 (mu e') (mu e).
+  Proof. unfold reduce_exponential_of_negation. intros H. simple_rule H. Qed.
+
+  Lemma mu_logarithm_of_exponential e e' :
+    reduce_logarithm_of_exponential N e = Some e' -> lt4 (mu e') (mu e).
+  Proof. unfold reduce_logarithm_of_exponential. intros H. simple_rule H. Qed.
+
+  Lemma mu_logarithm_of_reciprocal e e' :
+    reduce_logarithm_of_reciprocal e = Some e' -> lt4 (mu e') (mu e).
+  Proof. unfold reduce_logarithm_of_reciprocal. intros H. simple_rule H. Qed.
+
+  Lemma mu_logarithm_of_nth_power e e' :
+    reduce_logarithm_of_nth_power N e = Some e' -> lt4 (mu e') (mu e).
+  Proof. unfold reduce_logarithm_of_nth_power. intros H. simple_rule H. Qed.
+
+  Lemma mu_cosine_of_negation e e' :
+    reduce_cosine_of_negation e = Some e' -> lt4 (mu e') (mu e).
+  Proof. unfold reduce_cosine_of_negation. intros H. simple_rule H. Qed.
+
+  Lemma mu_sine_of_negation e e' :
+    reduce_sine_of_negation e = Some e' -> lt4 (mu e') (mu e).
+  Proof. unfold reduce_sine_of_negation. intros H. simple_rule H. Qed.
+
+  (** ** Every reducer of every class decreases the measure *)
+  Definition rule_decreases (r : @rule T) : Prop :=
+    forall e e', snd r e = Some e' -> lt4 (mu e') (mu e).
+
+  Lemma first_reducer_decreases rs e nm e' :
+    Forall rule_decreases rs -> first_reducer rs e = Some (nm, e') -> lt4 (mu e') (mu e).
+  Proof.
+    induction 1 as [|[nm0 f] r Hf Hr IH]; cbn [first_reducer]; [discriminate|].
+    destruct (f e) as [x|] eqn:Ef.
+    - intros H; inv H. apply Hf. exact Ef.
+    - exact IH.
+  Qed.
+
+  Ltac one_rule :=
+    let a := fresh "a" in let b := fresh "b" in
+    intros a b; cbn [snd];
+    first
+      [ exact (mu_flattening_nested_sums a b)
+      | exact (mu_sum_by_eliminating_zeros a b)
+      | exact (mu_sum_by_consolidating_logarithms a b)
+      | exact (mu_sum_by_consolidating_constants a b)
+      | exact (mu_minus_to_sum_with_negation a b)
+      | exact (mu_negation_of_negation a b)
+      | exact (mu_negation_of_sum a b)
+      | exact (mu_flattening_nested_products a b)
+      | exact (mu_product_when_multiplying_by_zero a b)
+      | exact (mu_product_by_eliminating_ones a b)
+      | exact (mu_product_by_eliminating_negations a b)
+      | exact (mu_product_by_consolidating_nth_powers a b)
+      | exact (mu_product_by_consolidating_nth_roots a b)
+      | exact (mu_product_by_consolidating_exponentials a b)
+      | exact (mu_product_by_consolidating_constants a b)
+      | exact (mu_divide_to_multiplying_with_reciprocal a b)
+      | exact (mu_reciprocal_of_reciprocal a b)
+      | exact (mu_reciprocal_of_negation a b)
+      | exact (mu_reciprocal_of_product a b)
+      | exact (mu_u_to_the_one a b)
+      | exact (mu_u_to_the_zero a b)
+      | exact (mu_one_to_the_u a b)
+      | exact (mu_u_to_the_n_at_least_two a b)
+      | exact (mu_u_to_the_negative_one a b)
+      | exact (mu_power_with_constant_base a b)
+      | exact (mu_power_of_power a b)
+      | exact (mu_u_to_the_negation_of_v a b)
+      | exact (mu_reciprocal_u_to_the_v a b)
+      | exact (mu_nth_power_where_n_is_one a b)
+      | exact (mu_nth_power_of_mth_root a b)
+      | exact (mu_nth_power_of_mth_power a b)
+      | exact (mu_nth_power_of_negation a b)
+      | exact (mu_nth_power_of_reciprocal a b)
+      | exact (mu_nth_power_of_exponential a b)
+      | exact (mu_nth_root_where_n_is_one a b)
+      | exact (mu_nth_root_of_mth_power a b)
+      | exact (mu_nth_root_of_mth_root a b)
+      | exact (mu_odd_nth_root_of_negation a b)
+      | exact (mu_nth_root_of_reciprocal a b)
+      | exact (mu_exponential_of_logarithm a b)
+      | exact (mu_exponential_of_negation a b)
+      | exact (mu_logarithm_of_exponential a b)
+      | exact (mu_logarithm_of_reciprocal a b)
+      | exact (mu_logarithm_of_nth_power a b)
+      | exact (mu_cosine_of_negation a b)
+      | exact (mu_sine_of_negation a b) ].
+
+  (* all 46 rules, as listed in [all_rules] *)
+  Lemma all_rules_decrease : Forall rule_decreases (all_rules N).
+  Proof.
+    unfold all_rules, reducers_Add, reducers_Minus, reducers_Negation, reducers_Multiply,
+      reducers_Divide, reducers_Reciprocal, reducers_Power, reducers_NthPower, reducers_NthRoot,
+      reducers_Exponential, reducers_Logarithm, reducers_Cosine, reducers_Sine.
+    cbn [app]. unfold rule_decreases.
+    repeat (constructor; [one_rule|]). constructor.
+  Qed.
+
+  Lemma all_rules_length : length (all_rules N) = 46.
+  Proof. reflexivity. Qed.
+
+  Lemma reducers_decrease e : Forall rule_decreases (reducers_of N e).
+  Proof.
+    apply Forall_forall. intros r Hr.
+    apply (proj1 (Forall_forall _ _) all_rules_decrease).
+    unfold all_rules. rewrite !in_app_iff.
+    destruct e; cbn [reducers_of] in Hr; tauto.
+  Qed.
+
+  Lemma mu_apply_reducers e nm e' :
+    apply_reducers N e = Some (nm, e') -> lt4 (mu e') (mu e).
+  Proof.
+    unfold apply_reducers. intros H.
+    eapply first_reducer_decreases; [apply reducers_decrease | exact H].
+  Qed.
+
+  Lemma mu_rules_at e lab e' : rules_at N e = Some (lab, e') -> lt4 (mu e') (mu e).
+  Proof.
+    unfold rules_at. destruct (apply_reducers N e) as [[nm x]|] eqn:Ea; [|discriminate].
+    intros H; inv H. eapply mu_apply_reducers. exact Ea.
+  Qed.
+
+  (** ** Constant folding *)
+  Lemma mu_consolidate e c : consolidate N e = Some c -> lt4 (mu c) (mu e).
+  Proof.
+    unfold consolidate.
+    destruct e; cbn [var_free]; try discriminate;
+      match goal with
+      | |- (if ?b then _ else _) = _ -> _ => destruct b; [|discriminate]
+      end;
+      match goal with
+      | |- match ?o with _ => _ end = _ -> _ => destruct o; try discriminate
+      end;
+      intros H; inv H; crunch; (apply lt4_4; [lia | lia | lia | wpos; lia]).
+  Qed.
+
+  (** ** The step function, unfolded *)
+  Fixpoint step_list (l : list E) : option (@label T * list E) :=
+    match l with
+    | [] => None
+    | x :: r =>
+        match step_named N x with
+        | Some (lab, x') => Some (lab, x' :: r)
+        | None =>
+            match step_list r with
+            | Some (lab, r') => Some (lab, x :: r')
+            | None => None
+            end
+        end
+    end.
+
+  Definition step_unary (e a : E) (rebuild : E -> E) : option (@label T * E) :=
+    match step_named N a with
+    | Some (lab, a') => Some (lab, rebuild a')
+    | None => rules_at N e
+    end.
+
+  Definition step_binary (e a b : E) (rebuild : E -> E -> E) : option (@label T * E) :=
+    match step_named N a with
+    | Some (lab, a') => Some (lab, rebuild a' b)
+    | None =>
+        match step_named N b with
+        | Some (lab, b') => Some (lab, rebuild a b')
+        | None => rules_at N e
+        end
+    end.
+
+  Lemma step_named_eq e :
+    step_named N e =
+    match consolidate N e with
+    | Some c => Some (LConsolidate e, c)
+    | None =>
+        match e with
+        | Const _ | Var _ => None
+        | Add l => match step_list l with
+                   | Some (lab, l') => Some (lab, Add l')
+                   | None => rules_at N e
+                   end
+        | Mul l => match step_list l with
+                   | Some (lab, l') => Some (lab, Mul l')
+                   | None => rules_at N e
+                   end
+        | Minus a b => step_binary e a b Minus
+        | Divide a b => step_binary e a b Divide
+        | Power a b => step_binary e a b Power
+        | Neg a => step_unary e a Neg
+        | Recip a => step_unary e a Recip
+        | Sin a => step_unary e a Sin
+        | Cos a => step_unary e a Cos
+        | NthPow a n => step_unary e a (fun x => NthPow x n)
+        | NthRoot a n => step_unary e a (fun x => NthRoot x n)
+        | Exp a b => step_unary e a (fun x => Exp x b)
+        | Log a b => step_unary e a (fun x => Log x b)
+        end
+    end.
+  Proof. destruct e; reflexivity. Qed.
+
+  (** ** Context closure and the main theorem *)
+  Definition ml (l : list E) : nat * nat * nat * nat :=
+    (lsum (ns g1) l, lsum (ns g2) l, lsum (ns g3) l, lsum W l).
+
+  Definition Pdec (e : E) : Prop :=
+    forall lab e', step_named N e = Some (lab, e') -> lt4 (mu e') (mu e).
+
+  Lemma step_list_decreases l :
+    Forall Pdec l ->
+    forall lab l', step_list l = Some (lab, l') ->
+                   length l' = length l /\ lt4 (ml l') (ml l).
+  Proof.
+    induction 1 as [|x r Hx Hr IH]; intros lab l' H; cbn [step_list] in H; [discriminate|].
+    destruct (step_named N x) as [[lab1 x']|] eqn:Ex.
+    - inv H. specialize (Hx _ _ Ex). split; [reflexivity|].
+      unfold ml, mu, lt4 in *. cbn [lsum]. lia.
+    - destruct (step_list r) as [[lab1 r']|] eqn:Er; [|discriminate]. inv H.
+      destruct (IH _ _ eq_refl) as [Hl Hlt]. split; [cbn [length]; lia|].
+      unfold ml, lt4 in *. cbn [lsum]. lia.
+  Qed.
+
+  Lemma sq_lt (x y : nat) : x < y -> x * x < y * y.
+  Proof. nia. Qed.
+  Lemma mul_lt_pos_r (x y z : nat) : x < y -> 1 <= z -> x * z < y * z.
+  Proof. nia. Qed.
+  Lemma mul_lt_pos_l (x y z : nat) : x < y -> 1 <= z -> z * x < z * y.
+  Proof. nia. Qed.
+
+  Ltac lin_ctx IH := unfold mu, lt4 in *; cbn [ns g1 g2 g3 W]; lia.
+
+  Theorem step_named_decreases e : Pdec e.
+  Proof.
+    induction e as [c|x|l IHl|l IHl|a b IHa IHb|a b IHa IHb|a b IHa IHb
+                   |a IHa|a IHa|a IHa|a IHa|a n IHa|a n IHa|a bs IHa|a bs IHa]
+      using expr_ind';
+      intros lab e' H; rewrite step_named_eq in H;
+      (destruct (consolidate N _) as [c0|] eqn:Ec;
+       [inv H; apply mu_consolidate; exact Ec|]);
+      try discriminate H;
+      try (unfold step_unary in H;
+           destruct (step_named N a) as [[lab1 a']|] eqn:Ea;
+           [inv H; specialize (IHa _ _ Ea) | exact (mu_rules_at _ _ _ H)]);
+      try (unfold step_binary in H;
+           destruct (step_named N a) as [[lab1 a']|] eqn:Ea;
+           [inv H; specialize (IHa _ _ Ea)
+           | destruct (step_named N b) as [[lab1 b']|] eqn:Eb;
+             [inv H; specialize (IHb _ _ Eb) | exact (mu_rules_at _ _ _ H)]]);
+      try (destruct (step_list l) as [[lab1 l']|] eqn:El;
+           [inv H; destruct (step_list_decreases l IHl _ _ El) as [Hlen Hlt]
+           | exact (mu_rules_at _ _ _ H)]).
+    - (* Add *) unfold ml, mu, lt4 in *; cbn [ns g1 g2 g3 W]; lia.
+    - (* Mul *) unfold ml, mu, lt4 in *; cbn [ns g1 g2 g3 W]; lia.
+    - (* Minus *) lin_ctx IHa.
+    - lin_ctx IHb.
+    - (* Divide *) lin_ctx IHa.
+    - lin_ctx IHb.
+    - (* Power *)
+      pose proof (W_pos b) as Hb.
+      assert (W a' < W a -> W a' * W a' * (W b * W b) < W a * W a * (W b * W b)) as Hm.
+      { intros Hlt. apply mul_lt_pos_r; [apply sq_lt; exact Hlt | nia]. }
+      destruct (Nat.lt_ge_cases (W a') (W a)) as [Hlt|Hge]; [apply Hm in Hlt | clear Hm];
+        lin_ctx IHa.
+    - pose proof (W_pos a) as Ha.
+      assert (W b' < W b -> W a * W a * (W b' * W b') < W a * W a * (W b * W b)) as Hm.
+      { intros Hlt. apply mul_lt_pos_l; [apply sq_lt; exact Hlt | nia]. }
+      destruct (Nat.lt_ge_cases (W b') (W b)) as [Hlt|Hge]; [apply Hm in Hlt | clear Hm];
+        lin_ctx IHb.
+    - (* Neg *) lin_ctx IHa.
+    - (* Recip *) lin_ctx IHa.
+    - (* Sin *) lin_ctx IHa.
+    - (* Cos *) lin_ctx IHa.
+    - (* NthPow *) lin_ctx IHa.
+    - (* NthRoot *) lin_ctx IHa.
+    - (* Exp *)
+      pose proof (sq_lt (W a') (W a)) as Hm.
+      destruct (Nat.lt_ge_cases (W a') (W a)) as [Hlt|Hge]; [apply Hm in Hlt | clear Hm];
+        lin_ctx IHa.
+    - (* Log *) lin_ctx IHa.
+  Qed.
+
+  Theorem step_decreases e e' : step N e = Some e' -> lt_mu (mu e') (mu e).
+  Proof.
+    unfold step, lt_mu. destruct (step_named N e) as [[lab x]|] eqn:Es; [|discriminate].
+    intros H; inv H. exact (step_named_decreases _ _ _ Es).
+  Qed.
+
+  Lemma step_list_none l :
+    step_list l = None -> forall x, In x l -> step_named N x = None.
+  Proof.
+    induction l as [|y r IH]; intros H x Hx; [destruct Hx|].
+    cbn [step_list] in H.
+    destruct (step_named N y) as [[lab1 y']|] eqn:Ey; [discriminate|].
+    destruct (step_list r) as [[lab1 r']|] eqn:Er; [discriminate|].
+    destruct Hx as [<- | Hx]; [exact Ey | exact (IH eq_refl x Hx)].
+  Qed.
 End Measure.
+
+(** ** The statements of Spec.v (number interface := the reals) *)
+
+Theorem terminates : C11_terminates.
+Proof.
+  unfold C11_terminates.
+  intros e.
+  induction e as [e IH]
+    using (well_founded_induction (Inverse_Image.wf_inverse_image _ _ lt4 mu lt4_wf)).
+  destruct (step RInst e) as [e'|] eqn:Es.
+  - destruct (IH e' (step_decreases RInst e e' Es)) as [fuel Hf].
+    exists (S fuel). cbn [fully_reduce]. rewrite Es. exact Hf.
+  - exists 0. exact Es.
+Qed.
+
+Lemma iter_step_S i e :
+  iter_step (S i) e = match step RInst e with Some e' => iter_step i e' | None => None end.
+Proof. reflexivity. Qed.
+
+Lemma iter_step_add i k : forall e,
+  iter_step (i + k) e = match iter_step i e with Some a => iter_step k a | None => None end.
+Proof.
+  induction i as [|i IH]; intros e; [reflexivity|].
+  change (S i + k) with (S (i + k)). rewrite !iter_step_S.
+  destruct (step RInst e) as [e'|]; [apply IH | reflexivity].
+Qed.
+
+(* along the rewrite sequence the measure strictly decreases *)
+Lemma iter_step_decreases k : forall a b,
+  iter_step (S k) a = Some b -> lt4 (mu b) (mu a).
+Proof.
+  induction k as [|k IH]; intros a b H; rewrite iter_step_S in H;
+    destruct (step RInst a) as [a'|] eqn:Es; try discriminate H.
+  - cbn [iter_step] in H. inversion H; subst. exact (step_decreases RInst _ _ Es).
+  - eapply lt4_trans; [exact (IH _ _ H) | exact (step_decreases RInst _ _ Es)].
+Qed.
+
+Theorem no_revisit : C11_no_revisit.
+Proof.
+  unfold C11_no_revisit. intros e a b i j Hij Hi Hj Heq.
+  replace j with (i + S (j - i - 1)) in Hj by lia.
+  rewrite iter_step_add, Hi in Hj. apply iter_step_decreases in Hj.
+  subst b. exact (lt4_irrefl _ Hj).
+Qed.
+
+Lemma rules_at_none (e : expr R) : rules_at RInst e = None -> apply_reducers RInst e = None.
+Proof.
+  unfold rules_at. destruct (apply_reducers RInst e) as [[nm x]|]; [discriminate | reflexivity].
+Qed.
+
+Lemma step_named_none_rule_free (e : expr R) :
+  step_named RInst e = None ->
+  forall s, In s (subterms e) -> apply_reducers RInst s = None /\ consolidate RInst s = None.
+Proof.
+  induction e as [c|x|l IHl|l IHl|a b IHa IHb|a b IHa IHb|a b IHa IHb
+                 |a IHa|a IHa|a IHa|a IHa|a n IHa|a n IHa|a bs IHa|a bs IHa]
+    using expr_ind';
+    intros H s Hs; rewrite step_named_eq in H;
+    (destruct (consolidate RInst _) as [c0|] eqn:Ec; [discriminate H|]);
+    cbn [subterms In] in Hs;
+    try (unfold step_unary in H;
+         destruct (step_named RInst a) as [[lab1 a']|] eqn:Ea; [discriminate H|];
+         apply rules_at_none in H;
+         destruct Hs as [<- | Hs]; [split; assumption | exact (IHa eq_refl s Hs)]);
+    try (unfold step_binary in H;
+         destruct (step_named RInst a) as [[lab1 a']|] eqn:Ea; [discriminate H|];
+         destruct (step_named RInst b) as [[lab2 b']|] eqn:Eb; [discriminate H|];
+         apply rules_at_none in H;
+         destruct Hs as [<- | Hs]; [split; assumption|];
+         apply in_app_or in Hs; destruct Hs as [Hs | Hs];
+         [exact (IHa eq_refl s Hs) | exact (IHb eq_refl s Hs)]);
+    try (destruct (step_list RInst l) as [[lab1 l']|] eqn:El; [discriminate H|];
+         apply rules_at_none in H;
+         destruct Hs as [<- | Hs]; [split; assumption|];
+         apply in_flat_map in Hs; destruct Hs as [x [Hx Hsx]];
+         exact (proj1 (Forall_forall _ _) IHl x Hx (step_list_none RInst l El x Hx) s Hsx)).
+  - destruct Hs as [<- | []]. split; [reflexivity | exact Ec].
+  - destruct Hs as [<- | []]. split; [reflexivity | exact Ec].
+Qed.
+
+Theorem rule_free : C11_rule_free.
+Proof.
+  unfold C11_rule_free. intros e H. apply step_named_none_rule_free.
+  unfold step in H. destruct (step_named RInst e) as [[lab x]|]; [discriminate H | reflexivity].
+Qed.
+
+(** ** Non-vacuity *)
+Example ex_step :
+  step RInst (Neg (Neg (Var 1%positive))) = Some (Var 1%positive).
+Proof. reflexivity. Qed.
+
+(* premises of [no_revisit] on a sequence with two steps *)
+Example ex_no_revisit_premises :
+  let e : expr R := Minus (Var 1%positive) (Neg (Var 2%positive)) in
+  iter_step 0 e = Some e /\
+  iter_step 2 e = Some (Add [Var 1%positive; Var 2%positive]) /\
+  iter_step 3 e = None.
+Proof. repeat split; reflexivity. Qed.
+
+(* premise of [rule_free] on a non-trivial rule-free tree *)
+Example ex_rule_free_premise :
+  step RInst (Add [Var 1%positive; Mul [Var 2%positive; Sin (Var 1%positive)]]) = None.
+Proof. reflexivity. Qed.
+
+Print Assumptions step_decreases.
+Print Assumptions terminates.
+Print Assumptions no_revisit.
+Print Assumptions rule_free.
